@@ -210,6 +210,7 @@ var c06VM = &vm.VM{}
 func c06Case(c *runner.Ctx, idx uint64) {
 	r := c.R
 	g := term.NewGen(r, false)
+	g.NoElvis = true
 	sites := 1 + r.Intn(12)
 	if idx%3 == 0 {
 		sites = 1 + r.Intn(3)
